@@ -226,6 +226,10 @@ class Engine:
             return z3.Real(prefix + name)
         if t.kind == "obj":
             return None
+        if t.kind == "dtype":
+            lo, hi = z3.Int(prefix + name + "_dlo"), z3.Int(prefix + name + "_dhi")
+            self.fact(z3.And(lo <= 0, hi >= 127, lo >= I64_MIN, hi <= 2 ** 64 - 1, z3.Or(lo == 0, lo == -hi - 1)))
+            return (lo, hi)
         if t.kind == "arr":
             term = z3.Const(prefix + name, asort(t.ndim, t.elem))
             shape = []
@@ -681,8 +685,11 @@ class Engine:
             elem = "int"
             if "DEFAULT_INT" in dtxt or dtxt in ("int", "np.int64"):
                 dt = (z3.IntVal(I64_MIN), z3.IntVal(I64_MAX))
-            elif dtxt in self.c.attrs or dtxt in st.vars:
-                v = st.vars.get(dtxt) if dtxt in st.vars else None
+            else:
+                try:
+                    v = self.ev(e.args[1] if len(e.args) > 1 else e.keywords[0].value, st, False, ctx)
+                except (OutOfSubset, ContractError):
+                    v = None
                 dt = v if isinstance(v, tuple) and len(v) == 2 else None
         sort = asort(len(dims), elem)
         if kind == "empty":
@@ -785,6 +792,13 @@ class Engine:
             if not isinstance(v, SView):
                 raise ContractError("view_index of a non-view")
             return v.idx
+        if name in ("dtype_lo", "dtype_hi"):
+            arr = self.ev(e.args[0], st, True, ctx)
+            if isinstance(arr, tuple):
+                return arr[0 if name == "dtype_lo" else 1]
+            if not isinstance(arr, SArr) or arr.dt is None:
+                raise ContractError(f"{name}: no integer dtype")
+            return arr.dt[0 if name == "dtype_lo" else 1]
         if name == "shape":
             arr = self.ev(e.args[0], st, True, ctx)
             return arr.shape[e.args[1].value]
@@ -905,10 +919,18 @@ class Engine:
                 raise OutOfSubset("modifies of non-array")
             na = a.with_term(fresh(p, a.term.sort()))   # written-set kept (it can only grow in the callee)
             post_env[p] = na
+            if p in cc.ghosts:          # a ghost array of the callee, instantiated by a caller variable
+                gname = gmap.get(p, "").strip()
+                if gname in st.vars:
+                    st.vars[gname] = na
+                continue
             arg = e.args[pnames.index(p)]
-            if not isinstance(arg, ast.Name):
+            if isinstance(arg, ast.Name):
+                st.vars[arg.id] = na
+            elif isinstance(arg, ast.Attribute) and unparse(arg) in st.vars:
+                st.vars[unparse(arg)] = na
+            else:
                 raise OutOfSubset("modified argument must be a variable")
-            st.vars[arg.id] = na
         res = None
         if cc.returns is not None:
             res = self.mk_param(f"{name}_res!{next(_fresh)}", cc.returns)
@@ -916,7 +938,19 @@ class Engine:
             post_env[gname] = self.mk_param(f"{name}_{gname}!{next(_fresh)}", gt)
         penv = State(post_env, st.guard)
         for cl in cc.ensures:
-            g = to_bool(self.ev(cl.ast, penv, True, {"old": env, "result": res}))
+            for _try in range(30):
+                try:
+                    g = to_bool(self.ev(cl.ast, penv, True, {"old": env, "result": res}))
+                    break
+                except ContractError as ex:
+                    # a local of the callee mentioned by its post-condition: existential for the caller
+                    import re as _re
+                    m_ = _re.search(r"unknown variable '(\w+)'", str(ex))
+                    if not m_:
+                        raise
+                    post_env[m_.group(1)] = fresh(f"{name}_{m_.group(1)}")
+            else:
+                raise ContractError(f"cannot evaluate post-condition of {name}")
             self.fact(g, st.guard)
         self.dts = saved_dts
         return res
@@ -1303,9 +1337,13 @@ class Engine:
                 if cc is not None and node.func.id in (set(self.fs.module_funcs) | set(self.c.opaque)):
                     pn = list(cc.params)
                     for p in cc.modifies:
+                        if p not in pn:
+                            continue
                         a = node.args[pn.index(p)]
                         if isinstance(a, ast.Name):
                             mods.add(a.id)
+                        elif isinstance(a, ast.Attribute):
+                            mods.add(unparse(a))
         return mods
 
     def havoc(self, st: State, names, arrays, lp: S.Loop):
@@ -1580,6 +1618,10 @@ class Engine:
         for g, t in self.c.ghosts.items():
             env[g] = self.mk_param(g, t)
             self.ghost_names.add(g)
+        for dn in self.c.dtypes:
+            self.dtype(dn)
+        for fld, t in self.c.fields.items():
+            env[fld] = self.mk_param(fld.replace(".", "_"), t)
         st = State(env, z3.BoolVal(True))
         self.entry = dict(env)
         nreq = len(self.facts)
